@@ -1,6 +1,6 @@
 (* Entry.v — executable entry points of the model, one per correspondence family:
    decode a case, run the model, encode the observable. *)
-From SLT Require Export Decode Runner Parser.
+From SLT Require Export Decode Runner Parser Unparse FsTrim Include.
 Open Scope N_scope.
 
 Definition e_event (e : event) : val :=
@@ -37,9 +37,8 @@ Section RunFamily.
 
   (* case = [mode; records; oracle; strict; labels; vars; threshold; engine;
              answers; default; make_fail; sys; sys_default; shutdown] *)
-  Definition run_case_with (dflt : bool) (v : val) : val :=
+  Definition run_records_with (dflt : bool) (rs : list record) (v : val) : val :=
     let mode := get_s (arg 0 v) in
-    let rs := map d_record (get_l (arg 1 v)) in
     let re := tbl_lookup (get_l (arg 2 v)) dflt in
     let st := mkRState (mkConfig None None (get_n (arg 6 v)) (get_b (arg 3 v))) false
                        (d_strs (arg 4 v))
@@ -60,6 +59,9 @@ Section RunFamily.
       let '(ev, st', w', f) := run_multi re substitute sc st world0 rs in
       let ev := if get_b (arg 13 v) then ev ++ shutdown_all st' else ev in
       VL [e_final f; vlist e_event ev].
+
+  Definition run_case_with (dflt : bool) (v : val) : val :=
+    run_records_with dflt (map d_record (get_l (arg 1 v))) v.
 End RunFamily.
 
 Definition run_case (v : val) : val :=
@@ -90,8 +92,94 @@ Definition parse_case (v : val) : val :=
   let b := parse_case_with true v in
   if val_eqb a b then a else VS (lit "oracle-miss").
 
+(* ---- family "format": [text; two?; re_valid] -> [parse; fmt; reparse; fmt2] *)
+Definition e_fmt (o : option str) : val :=
+  match o with Some s => vtag "ok" [VS s] | None => vtag "panic" [] end.
+
+Definition format_case_with (dflt : bool) (v : val) : val :=
+  let col := if get_b (arg 1 v) then two_col else default_col in
+  let p := parse col (tbl1_lookup (get_l (arg 2 v)) dflt) (lit "t.slt") None in
+  match p (get_s (arg 0 v)) with
+  | POk rs =>
+      match write_records rs with
+      | None => VL [e_presult (POk rs); e_fmt None]
+      | Some f1 =>
+          match p f1 with
+          | POk rs2 => VL [e_presult (POk rs); e_fmt (Some f1); e_presult (POk rs2); e_fmt (write_records rs2)]
+          | other => VL [e_presult (POk rs); e_fmt (Some f1); e_presult other]
+          end
+      end
+  | other => VL [e_presult other]
+  end.
+
+Definition format_case (v : val) : val :=
+  let a := format_case_with false v in
+  let b := format_case_with true v in
+  if val_eqb a b then a else VS (lit "oracle-miss").
+
+(* ---- family "trim": bytes -> the trailing-newline trimmer *)
+Definition trim_case (v : val) : val :=
+  match trim_tail (get_s v) with
+  | TOk b => vtag "ok" [VS b]
+  | TPanic => vtag "panic" []
+  end.
+
+(* ---- family "file": [main; fs table; glob table; two?; re_valid; run-case or []] *)
+Fixpoint fs_lookup (tbl : list val) (p : str) : option fentry :=
+  match tbl with
+  | [] => None
+  | e :: r =>
+      if str_eqb (get_s (arg 0 e)) p then
+        (if tag_is (VL [arg 1 e]) "file" then Some (FFile (get_s (arg 2 e)))
+         else if tag_is (VL [arg 1 e]) "dir" then Some FDir
+         else if tag_is (VL [arg 1 e]) "binary" then Some FBinary
+         else None)
+      else fs_lookup r p
+  end.
+
+Fixpoint glob_lookup (tbl : list val) (p : str) : globres :=
+  match tbl with
+  | [] => GOk []
+  | e :: r =>
+      if str_eqb (get_s (arg 0 e)) p then
+        (if tag_is (VL [arg 1 e]) "ok" then GOk (d_strs (arg 2 e))
+         else if tag_is (VL [arg 1 e]) "bad" then GBadPattern else GUnreadable)
+      else glob_lookup r p
+  end.
+
+Definition e_fpres (r : fpres) : val :=
+  match r with
+  | FOkR rs => vtag "ok" [vlist e_record rs]
+  | FErrR k l => vtag "err" [VN k; e_loc l]
+  | FPanicR => vtag "panic" []
+  | FOutOfFuel => vtag "out-of-fuel" []
+  end.
+
+Definition file_case_with (dflt : bool) (v : val) : val :=
+  let col := if get_b (arg 3 v) then two_col else default_col in
+  let fuel := S (S (length (get_l (arg 1 v)))) in
+  let pr := parse_file col (tbl1_lookup (get_l (arg 4 v)) dflt)
+                       (fs_lookup (get_l (arg 1 v))) (glob_lookup (get_l (arg 2 v))) fuel (get_s (arg 0 v)) in
+  match arg 5 v with
+  | VL [] => VL [e_fpres pr]
+  | rc =>
+      match pr with
+      | FOkR rs => VL [e_fpres pr; run_records_with no_subst dflt rs rc]
+      | FErrR k l => VL [e_fpres pr; VL [vtag "err" [VN 0; VN k; e_loc l]; VL []]]
+      | _ => VL [e_fpres pr; VL [vtag "panic" []; VL []]]
+      end
+  end.
+
+Definition file_case (v : val) : val :=
+  let a := file_case_with false v in
+  let b := file_case_with true v in
+  if val_eqb a b then a else VS (lit "oracle-miss").
+
 (* family dispatcher used by the extracted runner and by the vm_compute cross-check *)
 Definition model_main (fam : str) (v : val) : val :=
   if str_eqb fam (lit "run") then run_case v
   else if str_eqb fam (lit "parse") then parse_case v
+  else if str_eqb fam (lit "format") then format_case v
+  else if str_eqb fam (lit "trim") then trim_case v
+  else if str_eqb fam (lit "file") then file_case v
   else VS (lit "unknown-family").
